@@ -42,6 +42,9 @@ Fixpoint parse_replies (k : nat) (l : list Z) : list reply * list Z :=
       let '(rs, r') := parse_replies k' r1 in (RConform es :: rs, r')
     | 2 :: r => let '(b, r1) := take_bytes r in let '(rs, r') := parse_replies k' r1 in (RRaw b :: rs, r')
     | 3 :: c :: r => let '(rs, r') := parse_replies k' r in (RRecvErr c :: rs, r')
+    (* 4 ms: the device stays silent for ms real milliseconds (rust/shim Reply::Wait) - time is outside the model:
+       a host that waits as long as the pending acknowledge announced meets the next reply *)
+    | 4 :: _ :: r => parse_replies k' r
     | _ => ([], l)
     end
   end.
